@@ -116,7 +116,7 @@ func edgeLoopUndo(c *Ctx, ru *Rule, fnK, acqK, relK string) {
 	// the release loop ranges over a slice X[:n] of the edges
 	var prefix *ssa.Slice
 	allInstrs(f, func(in ssa.Instruction) {
-		if sl, ok := in.(*ssa.Slice); ok && sl.High != nil && sl.Low == nil && isLoadOfField(rmP + ".resourceScope.edges")(strip2(sl.X)) {
+		if sl, ok := in.(*ssa.Slice); ok && sl.High != nil && sl.Low == nil && isLoadOfField(rmP+".resourceScope.edges")(strip2(sl.X)) {
 			prefix = sl
 		}
 	})
@@ -344,7 +344,9 @@ func checkC03(c *Ctx, r *Report) {
 				}
 			}
 			news := findInstrs(f, callPred(rmP+".newConnectionScope", rmP+".newAllowListedConnectionScope", rmP+".newStreamScope"))
-			dones := func(in ssa.Instruction) bool { return isCallTo(in, m("connectionScope", "Done"), m("resourceScope", "Done"), m("streamScope", "Done")) }
+			dones := func(in ssa.Instruction) bool {
+				return isCallTo(in, m("connectionScope", "Done"), m("resourceScope", "Done"), m("streamScope", "Done"))
+			}
 			q := &Cut{Fn: f, From: news, Sep: dones, Target: inSet(errRets)}
 			r3.mustPass(f, e.fn+": a refused open destroys the scope it created (returning every charge and the per-subnet slot)", q, len(news))
 		}
